@@ -106,6 +106,10 @@ def classify_apply_exception(case, exc):
         # loud refusal: the label the uses are redirected to ended up in
         # front of data (its block was deleted in the same rewrite)
         return "refused", "refused:retarget-control-flow-into-data"
+    if name == "NotImplementedError" and case.get("label_only_tail") and \
+            "zero-sized block with a label" in str(exc):
+        # loud refusal: a patch puts nothing but a label into another section
+        return "refused", "refused:label-only-contents-for-another-section"
     if name == "PaddingError" and len(vocab.NOP[case["isa"]]) > 1:
         # loud refusal: an alignment requirement that whole nops cannot
         # establish (the ISA's nop is longer than the gap)
